@@ -8,6 +8,7 @@ import (
 	"time"
 
 	sdk "github.com/cosmos/cosmos-sdk/types"
+	banktypes "github.com/cosmos/cosmos-sdk/x/bank/types"
 )
 
 // Event is one concrete, replayable step of a run. Nothing in it is regenerated on replay.
@@ -89,6 +90,19 @@ func (w *World) Apply(ev *Event) Result {
 		if ev.Fault != "" {
 			w.Stats.Fault(ev.Fault)
 		}
+		if res.OK() {
+			for _, m := range msgs {
+				if ms, ok := m.(*banktypes.MsgSend); ok {
+					to, _ := sdk.AccAddressFromBech32(ms.ToAddress)
+					for _, c := range ms.Amount {
+						w.AddUnsolicited(to, c)
+					}
+				}
+			}
+		}
+		if w.Liq != nil {
+			w.Liq.observe(w, true, false)
+		}
 		if !res.OK() && failLog {
 			l := res.Log
 			if len(l) > 160 {
@@ -155,6 +169,7 @@ type Violation struct {
 	Signature string `json:"signature"` // stable discriminator: what is wrong, not the numbers
 	Detail    string `json:"detail"`
 	Step      int    `json:"step"`
+	Continue  bool   `json:"-"` // the oracle has accounted for this defect and can keep checking (only honoured for known findings)
 }
 
 func (v *Violation) Key() string { return v.Property + "|" + v.OracleID + "|" + v.Signature }
